@@ -286,6 +286,12 @@ func c17config(c *evid.Ctx) {
 		case 2:
 			pub = gen.V4Mapped(r.PublicIPv4())
 		}
+		if r.Intn(3) == 0 {
+			// Addresses at the edge of "public": every range the verifier exempts, and ranges that
+			// look local but are not exempt (the ID must then verify like for any other address).
+			pub = c17edgeIP(r, r.Intn(18))
+			c.Count("cases_config:PublicIP from an exempt or look-alike range", 1)
+		}
 		noSec := (i/6)%2 == 0
 		c.Eval(1)
 		c.Distinct(gen.Hash64("config", []byte(pub), noSec, i%6))
@@ -337,6 +343,9 @@ func c17config(c *evid.Ctx) {
 	// InitNodeId without a Conn, security enforced.
 	for i := 0; i < n/4+1; i++ {
 		pub := r.PublicIPv4()
+		if i%3 == 2 {
+			pub = c17edgeIP(r, r.Intn(18))
+		}
 		cfg := dht.ServerConfig{PublicIP: pub}
 		cfg.InitNodeId()
 		c.Eval(1)
@@ -345,4 +354,61 @@ func c17config(c *evid.Ctx) {
 			c.Violation("self-generated-id-not-valid-for-public-ip:InitNodeId", fmt.Sprintf("PublicIP %v: %x", pub, cfg.NodeId), nil)
 		}
 	}
+}
+
+// c17edgeIP draws an address from the ranges around the exemption rule: the exempt ones (10/8,
+// 172.16/12, 192.168/16, 169.254/16, 127/8, ::1, fe80::/10) and look-alikes that are NOT exempt
+// (IPv6 unique-local fc00::/7, site-local fec0::/10, CGNAT 100.64/10, 172.32/16, 192.169/16,
+// multicast, class E, documentation ranges, v4-mapped forms of all of these).
+func c17edgeIP(r *gen.Rand, k int) net.IP {
+	b := r.Bytes(16)
+	v4 := func(a, bb byte) net.IP {
+		ip := net.IP{a, bb, b[2], b[3]}
+		if r.Bool() {
+			return gen.V4Mapped(ip)
+		}
+		return ip
+	}
+	v6 := func(hi, lo byte) net.IP {
+		ip := append(net.IP(nil), b...)
+		ip[0], ip[1] = hi, lo
+		return ip
+	}
+	switch k % 18 {
+	case 0:
+		return v6(0xfc, b[1]) // unique local
+	case 1:
+		return v6(0xfd, b[1]) // unique local
+	case 2:
+		return v6(0xfe, 0xc0|b[1]&0x3f) // site local (deprecated)
+	case 3:
+		return v6(0xfe, 0x80|b[1]&0x3f) // link local: exempt
+	case 4:
+		return net.IPv6loopback
+	case 5:
+		return v4(10, b[1])
+	case 6:
+		return v4(172, 16|b[1]&0x0f)
+	case 7:
+		return v4(172, 32|b[1]&0x0f)
+	case 8:
+		return v4(192, 168)
+	case 9:
+		return v4(192, 169)
+	case 10:
+		return v4(169, 254)
+	case 11:
+		return v4(127, b[1])
+	case 12:
+		return v4(100, 64|b[1]&0x3f) // CGNAT
+	case 13:
+		return v4(224|b[0]&0x0f, b[1]) // multicast
+	case 14:
+		return v4(240|b[0]&0x0f, b[1]) // class E
+	case 15:
+		return v6(0xff, b[1]) // IPv6 multicast
+	case 16:
+		return v6(0x20, 0x01) // 2001::/16 (Teredo, documentation)
+	}
+	return v4(198, 18|b[1]&1) // benchmarking range
 }
